@@ -15,6 +15,7 @@ mod model;
 mod resolve;
 mod simfs;
 mod spec;
+mod xval;
 
 use vcommon::core::Prop;
 
